@@ -193,3 +193,77 @@ pub fn group_data_bytes<S: MdkStorageProvider>(m: &MDK<S>, gid: &GroupId, f: imp
     f(&mut gd);
     Some(gd.encode())
 }
+
+// ---- MLS messages whose sender is NOT a member, and other wire kinds -------------------------------
+
+fn verifiable_group_info<S: MdkStorageProvider>(m: &MDK<S>, gid: &GroupId) -> Option<(openmls::messages::group_info::VerifiableGroupInfo, Vec<u8>)> {
+    use tls_codec::Deserialize as _;
+    let grp = m.load_mls_group(gid).ok().flatten()?;
+    let sg = signer(m, &grp)?;
+    let out = grp.export_group_info(m.provider.crypto(), &sg, true).ok()?;
+    let bytes = out.tls_serialize_detached().ok()?;
+    match MlsMessageIn::tls_deserialize_exact(bytes.as_slice()).ok()?.extract() {
+        MlsMessageBodyIn::GroupInfo(info) => Some((info, bytes)),
+        _ => None,
+    }
+}
+
+/// An MLS *external commit* (sender `new_member_commit`, a PublicMessage): member `m` hands the
+/// GroupInfo of its current epoch to an outsider, who joins on its own with plain OpenMLS.
+pub fn external_commit<S: MdkStorageProvider>(m: &MDK<S>, gid: &GroupId, joiner: &PublicKey) -> Option<Vec<u8>> {
+    let grp = m.load_mls_group(gid).ok().flatten()?;
+    let (info, _) = verifiable_group_info(m, gid)?;
+    let outsider = MDK::new(mdk_memory_storage::MdkMemoryStorage::default());
+    let sg = SignatureKeyPair::new(grp.ciphersuite().signature_algorithm()).ok()?;
+    sg.store(outsider.provider.storage()).ok()?;
+    let cwk = CredentialWithKey { credential: BasicCredential::new(joiner.to_bytes().to_vec()).into(), signature_key: sg.public().into() };
+    let caps = Capabilities::new(None, Some(&[grp.ciphersuite()]), Some(&[ExtensionType::LastResort, ExtensionType::Unknown(0xF2EE)]), None, None);
+    let cfg = MlsGroupJoinConfig::builder().use_ratchet_tree_extension(true).build();
+    #[allow(deprecated)]
+    let (_g, commit, _gi) = MlsGroup::join_by_external_commit(&outsider.provider, &sg, None, info, &cfg, Some(caps), None, b"", cwk).ok()?;
+    commit.tls_serialize_detached().ok()
+}
+
+/// An external Add proposal by a would-be joiner (sender `new_member_proposal`, a PublicMessage).
+pub fn join_proposal<S: MdkStorageProvider>(m: &MDK<S>, gid: &GroupId, joiner: &PublicKey) -> Option<Vec<u8>> {
+    let grp = m.load_mls_group(gid).ok().flatten()?;
+    let outsider = MDK::new(mdk_memory_storage::MdkMemoryStorage::default());
+    let sg = SignatureKeyPair::new(grp.ciphersuite().signature_algorithm()).ok()?;
+    sg.store(outsider.provider.storage()).ok()?;
+    let cwk = CredentialWithKey { credential: BasicCredential::new(joiner.to_bytes().to_vec()).into(), signature_key: sg.public().into() };
+    let caps = Capabilities::new(None, Some(&[grp.ciphersuite()]), Some(&[ExtensionType::LastResort, ExtensionType::Unknown(0xF2EE)]), None, None);
+    let kp = KeyPackage::builder().leaf_node_capabilities(caps).build(grp.ciphersuite(), &outsider.provider, &sg, cwk).ok()?;
+    let out = JoinProposal::new::<<mdk_core::MdkProvider<mdk_memory_storage::MdkMemoryStorage> as openmls_traits::OpenMlsProvider>::StorageProvider>(kp.key_package().clone(), grp.group_id().clone(), grp.epoch(), &sg).ok()?;
+    out.tls_serialize_detached().ok()
+}
+
+/// The serialised GroupInfo of the member's current epoch as an MLS message (wrong body kind for
+/// a group event).
+pub fn group_info_message<S: MdkStorageProvider>(m: &MDK<S>, gid: &GroupId) -> Option<Vec<u8>> {
+    verifiable_group_info(m, gid).map(|(_, b)| b)
+}
+
+/// A member's commit / proposal framed as a PublicMessage (plaintext wire format) instead of a
+/// PrivateMessage. The member's stored configuration is put back afterwards.
+pub fn public_message<S: MdkStorageProvider>(m: &MDK<S>, gid: &GroupId, commit: bool) -> Option<Vec<u8>> {
+    let mut grp = m.load_mls_group(gid).ok().flatten()?;
+    let sg = signer(m, &grp)?;
+    let old = grp.configuration().clone();
+    let plain = MlsGroupJoinConfig::builder()
+        .wire_format_policy(PURE_PLAINTEXT_WIRE_FORMAT_POLICY)
+        .use_ratchet_tree_extension(true)
+        .sender_ratchet_configuration(old.sender_ratchet_configuration().clone())
+        .build();
+    grp.set_configuration(m.provider.storage(), &plain).ok()?;
+    let out = if commit {
+        let r = grp.commit_builder().force_self_update(true).load_psks(m.provider.storage()).ok().and_then(|b| b.build(m.provider.rand(), m.provider.crypto(), &sg, |_| true).ok()).and_then(|b| b.stage_commit(&m.provider).ok()).and_then(|b| b.commit().tls_serialize_detached().ok());
+        let _ = grp.clear_pending_commit(m.provider.storage());
+        r
+    } else {
+        let r = grp.propose_self_update(&m.provider, &sg, LeafNodeParameters::default()).ok().and_then(|(o, _)| o.tls_serialize_detached().ok());
+        let _ = grp.clear_pending_proposals(m.provider.storage());
+        r
+    };
+    let _ = grp.set_configuration(m.provider.storage(), &old);
+    out
+}
